@@ -14,4 +14,19 @@ def jobs(tier):
                  assumptions=["c_int contract (value of an Int object) - discharged by C09.dispatch"]))
     J.append(Job("C09.Float_Cmp.k1", "C09", "K1", "Num/k1.c", "h_Float_Cmp", ["Float_Cmp"], enforce="Float_Cmp",
                  replace=["c_float"], link=["src/Alloc.c"], replay="C09_float_cmp.c"))
+    for f in ["eq", "neq", "gt", "lt", "ge", "le"]:
+        J.append(Job("C09.%s.k1" % f, "C09", "K1", "Cmp/k1.c", "h_" + f, [f], enforce=f, replace=["cmp"], group="C09.predicates.k1",
+                     assumptions=["cmp returns some int (contract: arbitrary value) - the predicates are proved for every value"]))
+    J.append(Job("C09.String_Cmp.k1", "C09", "K1", "String/k1_cmp.c", "h_String_Cmp", ["String_Cmp", "String_C_Str"], enforce="String_Cmp",
+                 replace=["c_str", "strcmp"], link=["src/Alloc.c"],
+                 assumptions=["libc strcmp is the unsigned-byte lexicographic order (assumed contract: some function of the two buffers)",
+                              "c_str contract (buffer of a String object) - discharged by C09.dispatch.cmp_string"]))
+    J.append(Job("C09.Type_Cmp.k1", "C09", "K1", "Type/k1_cmp.c", "h_Type_Cmp", ["Type_Cmp", "Type_Builtin_Name"], enforce="Type_Cmp",
+                 replace=["cast", "strcmp"], link=["src/Alloc.c"],
+                 assumptions=["cast contract (identity on an object of the requested type) - discharged by C08.cast"]))
+    DL = ["src/Type.c", "src/Num.c", "src/Alloc.c", "src/Exception.c", "stubs/throw.c"]
+    for h in ["h_cmp_int", "h_cmp_float", "h_cmp_default", "h_cmp_default_mismatch"]:
+        J.append(Job("C09.dispatch.%s" % h[2:], "C09", "K2", "Cmp/dispatch.c", h, ["cmp", "eq", "neq", "lt", "gt", "le", "ge", "Type_Instance", "Type_Scan", "Type_Of", "c_int", "c_float", "Int_Cmp", "Float_Cmp"],
+                     link=DL + ["src/Pointer.c"], also=["C12"], replace_calls=["exception_throw:cv_throw"], unwind=12, group="C09.dispatch.k2",
+                     replay="C09_int_cmp.c" if "int" in h else "C09_float_cmp.c"))
     return J
